@@ -9,7 +9,8 @@ def sh(cmd, cwd=None, env=None, timeout=3600):
     p = subprocess.run(cmd, shell=True, cwd=cwd, env=env or ENV, stdout=subprocess.PIPE, stderr=subprocess.STDOUT, universal_newlines=True, timeout=timeout)
     return p.returncode, p.stdout
 def srcdir(P, X):
-    return "/tmp/mut/%s/%s/%s" % (P, {"a": "out", "b": "out", "c": "out2", "d": "out2"}.get(X, "out3"), X)
+    if P.startswith("R"): return "/tmp/mut/%s/out/%s" % (P, X)
+    return "/tmp/mut/%s/%s/%s" % (P, {"a": "out", "b": "out", "c": "out2", "d": "out2", "e": "out3", "f": "out3"}.get(X, "out3"), X)
 def worker(k, q, lock):
     wt = "/tmp/pm/w%d" % k
     sh("git -C /repo worktree remove --force %s; rm -rf %s; git -C /repo worktree add -q --detach %s HEAD" % (wt, wt, wt))
@@ -27,24 +28,29 @@ def worker(k, q, lock):
             try: res["confirm"] = json.load(open(old)).get("confirm", {})
             except Exception: pass
         sh("git checkout -q -- . && git clean -fdq", cwd=wt)
+        demo_path = mdir + "/demo_test.go"
+        place = None
+        if not res["confirm"] and os.path.exists(demo_path):
+            m = re.search(r"place in:\s*([\w/.-]+)", open(demo_path).read())
+            if m:
+                place = m.group(1).strip("/")
+                dst = os.path.join(wt, place, "zz_demo_test.go"); shutil.copy(demo_path, dst)
+                rc, out = sh("go test -count=1 ./%s/ 2>&1 | tail -5" % place, cwd=wt)
+                res["confirm"]["demo_clean_passes"] = ("ok" in out and "FAIL" not in out)
+                os.remove(dst)
         rc, out = sh("git apply %s" % patch, cwd=wt)
         if rc != 0:
             res["error"] = "patch does not apply: " + out[-300:]
         else:
-            if not res["confirm"]:
-                demo = open(mdir + "/demo_test.go").read()
-                m = re.search(r"place in:\s*([\w/.-]+)", demo)
-                if m:
-                    place = m.group(1).strip("/")
-                    dst = os.path.join(wt, place, "zz_demo_test.go"); shutil.copy(mdir + "/demo_test.go", dst)
-                    rc, out = sh("go test -count=1 ./%s/ 2>&1 | tail -15" % place, cwd=wt); res["confirm"]["demo_patched_fails"] = "FAIL" in out
-                    os.remove(dst)
-                    rc, out = sh("go build ./... && go build -tags verif ./... && go test -count=1 ./... 2>&1 | grep -v '^ok\\|no test files' | head", cwd=wt)
-                    res["confirm"]["suite_passes_with_patch"] = out.strip() == ""
-                    sh("git stash -q", cwd=wt)
-                    shutil.copy(mdir + "/demo_test.go", dst)
-                    rc, out = sh("go test -count=1 ./%s/ 2>&1 | tail -5" % place, cwd=wt); res["confirm"]["demo_clean_passes"] = ("ok" in out and "FAIL" not in out)
-                    os.remove(dst); sh("git stash pop -q", cwd=wt)
+            if not os.path.exists(demo_path) and not res["confirm"]:
+                rc, out = sh("go build ./... && go build -tags verif ./... && go test -count=1 $(go list ./... | grep -v /out) 2>&1 | grep -v '^ok\\|no test files' | head", cwd=wt)
+                res["confirm"] = dict(refactoring=True, suite_passes_with_patch=(out.strip() == ""))
+            elif place:
+                dst = os.path.join(wt, place, "zz_demo_test.go"); shutil.copy(demo_path, dst)
+                rc, out = sh("go test -count=1 ./%s/ 2>&1 | tail -15" % place, cwd=wt); res["confirm"]["demo_patched_fails"] = "FAIL" in out
+                os.remove(dst)
+                rc, out = sh("go build ./... && go build -tags verif ./... && go test -count=1 $(go list ./... | grep -v /out) 2>&1 | grep -v '^ok\\|no test files' | head", cwd=wt)
+                res["confirm"]["suite_passes_with_patch"] = out.strip() == ""
             for pid in pids:
                 t0 = time.time()
                 rc, out = sh("/verif/check %s" % pid, cwd="/verif", env=env, timeout=3000)
